@@ -19,7 +19,7 @@ SCHED_CHECKS=" C04 C06 C07 C08 "
 
 # checks with two parts: a schedule-exploring part (overlay binary) whose coverage is merged into the
 # API-level part (plain binary), which writes the evidence and decides the exit code
-HYBRID_CHECKS=" C19 "
+HYBRID_CHECKS=" C11 C19 "
 
 # scratch root: tmpfs if there is one, never something a registered command depends on
 mkscratch() {
